@@ -313,7 +313,7 @@ def descent(rep, rule, mod, fname, storage):
     seen = set()
     problems = []
     for ps in ss:
-        if not any(c.startswith('ITER(') and 'provided,)' in norm_required(c)
+        if not any(t and c.startswith('ITER(') and 'provided,)' in norm_required(c)
                    for c, t, p in ps.order):
             continue
         for e in ps.events:
